@@ -245,6 +245,9 @@ def unit_lifetime(ctx):
                     removers.append(node.name)
     init, _ = cls.lookup("__init__")
     registered = [ast.unparse(n.args[0]) for n in ast.walk(init.node) if isinstance(n, ast.Call) and ast.unparse(n.func) == "atexit.register" and n.args]
+    # a handler registered through a local alias (h = self.__exist_handler; atexit.register(h)) counts as that method
+    alias = {t.id: ast.unparse(n.value) for n in ast.walk(init.node) if isinstance(n, ast.Assign) for t in n.targets if isinstance(t, ast.Name)}
+    registered = [alias.get(r, r) for r in registered]
     handler_names = {r.split(".")[-1] for r in registered}
     ok_sites = set(removers) <= ({"__init__"} | handler_names) and len(registered) == 1
     ctx.oblige("panoptica_aggregator.Panoptica_Aggregator/lifetime(files are removed only in the constructor and in the one handler registered with atexit)", [],
